@@ -343,7 +343,7 @@ def inherit(ctx, vb):
         base = lambda e: bool(find_calls(e, 'region_name_and_vftable'))
         ok3 = r[1].endswith('Option::None') and base(tv['functions']) and base(tv['type_']) and base(tv['base_field']) and \
             strip(tv['functions'])[0] == 'field' and strip(tv['functions'])[2] == 'functions' and strip(tv['type_'])[2] == 'type_'
-        ctx.ob(['C06', 'C04'], 'R-SLP', 'VB|inherited', ok3, 'without an own block the functions and table type are the base\'s, the pointer is the base\'s', loc(x['span']))
+        ctx.ob(['C06', 'C04', 'C16'], 'R-SLP', 'VB|inherited', ok3, 'without an own block the functions and table type are the base\'s, the pointer is the base\'s', loc(x['span']))
     # the own-block outcomes are chosen by the presence of a vftable block alone (Some/None of the parameter), never by whether the
     # block lists any function: an empty `vftable {}` still declares a table (its struct is generated, its pointer field exists)
     vfp = [i for i in range(1, vb.nargs + 1) if vb.local_ty(i).startswith('std::option::Option<std::vec::Vec<%s' % FUNCTION)]
